@@ -31,4 +31,215 @@ theorem cacheall_class_eq_functional {α : Type} (stat : B → Except Err (List 
   simp only [id, flatten_single, accL_listAcc] at r
   rw [r]; rfl
 
+/-! ## the typed metric families (TE/Model/Fams.lean)
+
+  `FamStat.ClassEqFunctional M stat catB` (TE/Lemmas/FamStat.lean) says, for EVERY `outA`
+  (`_compute` + presentation): for every non-empty list `bs` of batches that pass validation,
+  the class fed `bs` batch by batch runs without error and its `compute()` equals the
+  functional `stat >=> outA` applied once to the concatenation `catB bs` — including the
+  cases where the functional is an error or NaN (`outA` is arbitrary). -/
+open TE.Fams
+
+/-- total form of `class_eq_functional_on_concat`: the class run succeeds, too. -/
+theorem class_eq_functional_total (M : Acc A) {stat : B → Except Err A} {catB : List B → B}
+    (hc : C12.StatCat M stat catB) : FamStat.ClassEqFunctional M stat catB :=
+  FamStat.classEq_of_statCat M hc
+
+/-- BinaryAccuracy. -/
+theorem C03_class_eq_functional_binaryAccuracy (thr : Q) :
+    FamStat.ClassEqFunctional partsAcc (binaryAccuracyStat thr) catPair :=
+  class_eq_functional_total partsAcc (FamStat.statCat_binaryAccuracy thr)
+
+/-- MulticlassAccuracy (k = 1; every average, predictions = labels or arg-max of logits). -/
+theorem C03_class_eq_functional_mcAccuracy (avg : Count.Avg) (C : Nat) :
+    FamStat.ClassEqFunctional partsAcc (mcAccuracyStat avg C) catPair :=
+  class_eq_functional_total partsAcc (FamStat.statCat_mcAccuracy avg C)
+
+/-- MulticlassAccuracy (top-k on logit rows of width W; every average). -/
+theorem C03_class_eq_functional_mcAccuracyTopk (avg : Count.Avg) (C k W : Nat) :
+    FamStat.ClassEqFunctional partsAcc (mcAccuracyTopkStat avg C k W) catPair :=
+  class_eq_functional_total partsAcc (FamStat.statCat_mcAccuracyTopk avg C k W)
+
+/-- MultilabelAccuracy (every criterion). -/
+theorem C03_class_eq_functional_multilabelAccuracy (thr : Q) (crit : Count.Crit) :
+    FamStat.ClassEqFunctional partsAcc (multilabelAccuracyStat thr crit) catPair :=
+  class_eq_functional_total partsAcc (FamStat.statCat_multilabelAccuracy thr crit)
+
+/-- TopKMultilabelAccuracy (every criterion). -/
+theorem C03_class_eq_functional_topkMultilabel (crit : Count.Crit) (k : Nat) :
+    FamStat.ClassEqFunctional partsAcc (topkMultilabelStat crit k) catPair :=
+  class_eq_functional_total partsAcc (FamStat.statCat_topkMultilabel crit k)
+
+/-- BinaryPrecision. -/
+theorem C03_class_eq_functional_binaryPrecision (thr : Q) :
+    FamStat.ClassEqFunctional partsAcc (binaryPrecisionStat thr) catPair :=
+  class_eq_functional_total partsAcc (FamStat.statCat_binaryPrecision thr)
+
+/-- BinaryRecall. -/
+theorem C03_class_eq_functional_binaryRecall (thr : Q) :
+    FamStat.ClassEqFunctional partsAcc (binaryRecallStat thr) catPair :=
+  class_eq_functional_total partsAcc (FamStat.statCat_binaryRecall thr)
+
+/-- BinaryF1Score. -/
+theorem C03_class_eq_functional_binaryF1 (thr : Q) :
+    FamStat.ClassEqFunctional partsAcc (binaryF1Stat thr) catPair :=
+  class_eq_functional_total partsAcc (FamStat.statCat_binaryF1 thr)
+
+/-- MulticlassPrecision (every average). -/
+theorem C03_class_eq_functional_mcPrecision (avg : Count.Avg) (C : Nat) :
+    FamStat.ClassEqFunctional partsAcc (mcPrecisionStat avg C) catPair :=
+  class_eq_functional_total partsAcc (FamStat.statCat_mcPrecision avg C)
+
+/-- MulticlassRecall and MulticlassF1Score (same `_update`; every average). -/
+theorem C03_class_eq_functional_mcRecall (avg : Count.Avg) (C : Nat) :
+    FamStat.ClassEqFunctional partsAcc (mcRecallStat avg C) catPair :=
+  class_eq_functional_total partsAcc (FamStat.statCat_mcRecall avg C)
+
+/-- MulticlassConfusionMatrix. -/
+theorem C03_class_eq_functional_confusion (C : Nat) (checkP checkL : Bool) :
+    FamStat.ClassEqFunctional partsAcc (confusionStat C checkP checkL) catPair :=
+  class_eq_functional_total partsAcc (FamStat.statCat_confusion C checkP checkL)
+
+/-- BinaryConfusionMatrix. -/
+theorem C03_class_eq_functional_binaryConfusion (thr : Q) :
+    FamStat.ClassEqFunctional partsAcc (binaryConfusionStat thr) catPair :=
+  class_eq_functional_total partsAcc (FamStat.statCat_binaryConfusion thr)
+
+/-- Mean (scalar or per-sample weights). -/
+theorem C03_class_eq_functional_mean :
+    FamStat.ClassEqFunctional partsAcc (meanStat) catWeighted :=
+  class_eq_functional_total partsAcc (FamStat.statCat_mean)
+
+/-- Sum (scalar or per-sample weights). -/
+theorem C03_class_eq_functional_sum :
+    FamStat.ClassEqFunctional partsAcc (sumStat) catWeighted :=
+  class_eq_functional_total partsAcc (FamStat.statCat_sum)
+
+/-- MeanSquaredError, streams of one arity d (all 1-D, or all (n, d)); optional sample weights. -/
+theorem C03_class_eq_functional_mse (d : Nat) :
+    FamStat.ClassEqFunctional partsAcc (mseStat d) (catCols d) :=
+  class_eq_functional_total partsAcc (FamStat.statCat_mse d)
+
+/-- R2Score, streams of one arity d. -/
+theorem C03_class_eq_functional_r2 (d : Nat) :
+    FamStat.ClassEqFunctional partsAcc (r2Stat d) (catCols d) :=
+  class_eq_functional_total partsAcc (FamStat.statCat_r2 d)
+
+/-- BinaryNormalizedEntropy (`ln`, `exp` parameters; per task row). -/
+theorem C03_class_eq_functional_bne (ln exp : Q → Q) (fl : Bool) (nt : Nat) :
+    FamStat.ClassEqFunctional partsAcc (bneStat ln exp fl nt) (catTasks nt) :=
+  class_eq_functional_total partsAcc (FamStat.statCat_bne ln exp fl nt)
+
+/-- Perplexity (`exp`, `ln` parameters). -/
+theorem C03_class_eq_functional_ppl (exp ln : Q → Q) (v : Nat) (ignore : Option Int) :
+    FamStat.ClassEqFunctional partsAcc (pplStat exp ln v ignore) catPair :=
+  class_eq_functional_total partsAcc (FamStat.statCat_ppl exp ln v ignore)
+
+/-- the additive part of PeakSignalNoiseRatio (squared error, count). -/
+theorem C03_class_eq_functional_psnr :
+    FamStat.ClassEqFunctional partsAcc (psnrStat) catPair :=
+  class_eq_functional_total partsAcc (FamStat.statCat_psnr)
+
+/-- ClickThroughRate (per task row; scalar or tensor weights). -/
+theorem C03_class_eq_functional_ctr (nt : Nat) :
+    FamStat.ClassEqFunctional partsAcc (ctrStat nt) (catCtr nt) :=
+  class_eq_functional_total partsAcc (FamStat.statCat_ctr nt)
+
+/-- WeightedCalibration (per task row; scalar or tensor weights). -/
+theorem C03_class_eq_functional_wc (nt : Nat) :
+    FamStat.ClassEqFunctional partsAcc (wcStat nt) (catWc nt) :=
+  class_eq_functional_total partsAcc (FamStat.statCat_wc nt)
+
+/-- BinaryBinnedPrecisionRecallCurve counts (any threshold list). -/
+theorem C03_class_eq_functional_binaryBinned (t : List Q) :
+    FamStat.ClassEqFunctional partsAcc (binaryBinnedStat t) catPair :=
+  class_eq_functional_total partsAcc (FamStat.statCat_binaryBinned t)
+
+/-- MulticlassBinnedPrecisionRecallCurve / MulticlassBinnedAUPRC counts (both optimisations). -/
+theorem C03_class_eq_functional_mcBinned (t : List Q) (opt : Binned.Opt) (W : Nat) :
+    FamStat.ClassEqFunctional partsAcc (mcBinnedStat t opt W) catPair :=
+  class_eq_functional_total partsAcc (FamStat.statCat_mcBinned t opt W)
+
+/-- MultilabelBinnedPrecisionRecallCurve / MultilabelBinnedAUPRC counts (both optimisations). -/
+theorem C03_class_eq_functional_mlBinned (t : List Q) (opt : Binned.Opt) (L : Nat) :
+    FamStat.ClassEqFunctional partsAcc (mlBinnedStat t opt L) catPair :=
+  class_eq_functional_total partsAcc (FamStat.statCat_mlBinned t opt L)
+
+/-- BinaryBinnedAUPRC counts (per task row). -/
+theorem C03_class_eq_functional_binaryBinnedAuprc (t : List Q) (nt : Nat) :
+    FamStat.ClassEqFunctional partsAcc (binaryBinnedAuprcStat t nt) (catTaskPairs nt) :=
+  class_eq_functional_total partsAcc (FamStat.statCat_binaryBinnedAuprc t nt)
+
+/-- WordErrorRate. -/
+theorem C03_class_eq_functional_wer {α : Type} [DecidableEq α] :
+    FamStat.ClassEqFunctional partsAcc (werStat (α := α)) catPair :=
+  class_eq_functional_total partsAcc (FamStat.statCat_wer)
+
+/-- WordInformationPreserved. -/
+theorem C03_class_eq_functional_wip {α : Type} [DecidableEq α] :
+    FamStat.ClassEqFunctional partsAcc (wipStat (α := α)) catPair :=
+  class_eq_functional_total partsAcc (FamStat.statCat_wip)
+
+/-- WordInformationLost. -/
+theorem C03_class_eq_functional_wil {α : Type} [DecidableEq α] :
+    FamStat.ClassEqFunctional partsAcc (wilStat (α := α)) catPair :=
+  class_eq_functional_total partsAcc (FamStat.statCat_wil)
+
+/-- BLEUScore statistics (n-gram order N). -/
+theorem C03_class_eq_functional_bleu {α : Type} [DecidableEq α] (N : Nat) :
+    FamStat.ClassEqFunctional partsAcc (bleuStat (α := α) N) catPair :=
+  class_eq_functional_total partsAcc (FamStat.statCat_bleu N)
+
+/-- cache of (score, target) samples: BinaryAUROC, BinaryAUPRC, BinaryPrecisionRecallCurve, BinaryRecallAtFixedPrecision, a task row of BinaryBinnedAUROC, AUC points. -/
+theorem C03_class_eq_functional_pairSamples {α β : Type} :
+    FamStat.ClassEqFunctional (listAcc (α × β)) (pairSamples (α := α) (β := β)) catPair :=
+  class_eq_functional_total (listAcc (α × β)) (FamStat.statCat_pairSamples)
+
+/-- cache of (score, target, weight) samples: weighted BinaryAUROC, Wasserstein1D. -/
+theorem C03_class_eq_functional_tripleSamples {α β γ : Type} :
+    FamStat.ClassEqFunctional (listAcc (α × β × γ)) (tripleSamples (α := α) (β := β) (γ := γ)) catTriple :=
+  class_eq_functional_total (listAcc (α × β × γ)) (FamStat.statCat_tripleSamples)
+
+/-- cache of (row, label / target row) samples: Multiclass/Multilabel AUROC, AUPRC, PR curves, recall@precision, MulticlassBinnedAUROC. -/
+theorem C03_class_eq_functional_rowSamples {β : Type} :
+    FamStat.ClassEqFunctional (listAcc (List Q × β)) (rowSamples (β := β)) catPair :=
+  class_eq_functional_total (listAcc (List Q × β)) (FamStat.statCat_rowSamples)
+
+/-- Cat. -/
+theorem C03_class_eq_functional_catSamples {α : Type} :
+    FamStat.ClassEqFunctional (listAcc α) (catSamples (α := α)) List.flatten :=
+  class_eq_functional_total (listAcc α) (FamStat.statCat_catSamples)
+
+/-- HitRate (per-sample values in update order). -/
+theorem C03_class_eq_functional_hitRate (C : Nat) (k : Option Int) :
+    FamStat.ClassEqFunctional (listAcc Q) (hitRateStat C k) catPair :=
+  class_eq_functional_total (listAcc Q) (FamStat.statCat_hitRate C k)
+
+/-- ReciprocalRank (per-sample values in update order). -/
+theorem C03_class_eq_functional_reciprocalRank (k : Option Int) :
+    FamStat.ClassEqFunctional (listAcc Q) (reciprocalRankStat k) catPair :=
+  class_eq_functional_total (listAcc Q) (FamStat.statCat_reciprocalRank k)
+
+/-- non-vacuity: BinaryAccuracy fed batches of sizes 3, 1, 2 = `binary_accuracy` of the six samples. -/
+example :
+    let bs : List (List Q × List Q) := [([3/4, 1/4, 1/2], [1, 0, 0]), ([1/8], [1]), ([1, 0], [1, 1])]
+    let outA : Parts → Except Err XQ := fun p => .ok (xdiv (part0 p 0) (part0 p 1))
+    bs ≠ [] ∧ (∀ b ∈ bs, ∃ a, binaryAccuracyStat (1/2) b = .ok a) ∧
+      (eval (additive partsAcc (binaryAccuracyStat (1/2)) outA) (single bs)).toOption.bind
+          (fun s => (outA s).toOption) = some (.val (1/2)) ∧
+      (binaryAccuracyStat (1/2) (catPair bs) >>= outA).toOption = some (.val (1/2)) := by
+  intro bs outA
+  exact ⟨by decide, FamStat.valid_of_all _ _ (by decide +kernel), by decide +kernel, by decide +kernel⟩
+
+/-- non-vacuity: MeanSquaredError on two (n, 2) batches, the second one weighted. -/
+example :
+    let bs : List ColBatch := [⟨[[1, 2], [0, 1]], [[1, 1], [1, 1]], 2, none⟩, ⟨[[3], [3]], [[1], [2]], 1, some [2]⟩]
+    let outA : Parts → Except Err (List XQ) := fun p => .ok (Agg.mseCompute false (p.getD 0 []) (part0 p 1))
+    (∀ b ∈ bs, ∃ a, mseStat 2 b = .ok a) ∧
+      (eval (additive partsAcc (mseStat 2) outA) (single bs)).toOption.bind
+          (fun s => (outA s).toOption) = some [.val (9/4), .val (3/4)] ∧
+      (mseStat 2 (catCols 2 bs) >>= outA).toOption = some [.val (9/4), .val (3/4)] := by
+  intro bs outA
+  exact ⟨FamStat.valid_of_all _ _ (by decide +kernel), by decide +kernel, by decide +kernel⟩
+
 end TE.C03
